@@ -5,6 +5,8 @@ import (
 	"fmt"
 	"log"
 	"sync"
+
+	"github.com/jcmturner/gokrb5/v8/messages"
 )
 
 // Settings holds optional client settings.
@@ -12,8 +14,9 @@ type Settings struct {
 	disablePAFXFast         bool
 	assumePreAuthentication bool
 	preAuthEType            int32
+	preAuthHints            *messages.KRBError // the KDC's last pre-authentication error: salt and string-to-key parameters
 	logger                  *log.Logger
-	// mux guards assumePreAuthentication and preAuthEType: AS exchanges (login, background session
+	// mux guards assumePreAuthentication, preAuthEType and preAuthHints: AS exchanges (login, background session
 	// renewal) running in different goroutines read and update them.
 	mux sync.RWMutex
 }
@@ -77,11 +80,20 @@ func (s *Settings) negotiatedPreAuthEType() int32 {
 	return s.preAuthEType
 }
 
-// setNegotiatedPreAuthEType records the etype to use for pre-authentication in later exchanges.
-func (s *Settings) setNegotiatedPreAuthEType(e int32) {
+// setNegotiatedPreAuthEType records the etype to use for pre-authentication in later exchanges and the
+// KDC's error that named it (with the salt and string-to-key parameters of the client's key).
+func (s *Settings) setNegotiatedPreAuthEType(e int32, hints *messages.KRBError) {
 	s.mux.Lock()
 	defer s.mux.Unlock()
 	s.preAuthEType = e
+	s.preAuthHints = hints
+}
+
+// negotiatedPreAuthHints returns the KDC's pre-authentication error of a previous exchange (nil if none).
+func (s *Settings) negotiatedPreAuthHints() *messages.KRBError {
+	s.mux.RLock()
+	defer s.mux.RUnlock()
+	return s.preAuthHints
 }
 
 // Logger used to configure client with a logger.
